@@ -350,6 +350,18 @@ def _fold(t):
     return t
 
 
+def const_str(t):
+    """value of a string literal or of a named &str constant"""
+    if t[0] == "const" and t[1] == "str":
+        return t[2]
+    if t[0] == "item":
+        import engine.mir as _m
+        init = _m.CURRENT.const_init(t[1]) if _m.CURRENT is not None else None
+        if init is not None and init[0] == "const" and init[1] == "str":
+            return init[2]
+    return None
+
+
 def const_int(t):
     t = fold(t)
     if t[0] == "const" and t[1] == "int":
